@@ -459,7 +459,7 @@ func runC18(cfg Config, args []string) int {
 		Exec:   func(c C18Case) CaseResult { return execC18(env, c) },
 		Shrink: shrinkC18,
 		Rule: "for every accepted world (fixture and synthetic, incl. setup files named with several dots and nested package directories) the complete product {-dry} x {-print} x {-log} x {-out: none, other name in the same directory, existing sub-directory, a directory outside the module reached with ..} x " +
-			"{input as argument relative to the package dir, relative to the module root, absolute, GOFILE only, GOFILE set but another argument given, relative to the module root entered through a symbolic link} is run in a fresh world whose output path is, in rotation, empty / holds the result of an earlier identical run / holds an older result, " +
+			"{input as argument relative to the package dir, relative to the module root, absolute, GOFILE only, GOFILE set but another argument given, relative to the module root entered through a symbolic link, GOFILE with directory components, the setup file's name being a symbolic link to a file kept elsewhere} (half of the command lines with the boolean flags in their other standard spellings: --x, -x=true, -x=1, explicit =false, shuffled, -- before the input) is run in a fresh world whose output path is, in rotation, empty / holds the result of an earlier identical run / holds an older result, " +
 			"and compared with a reference model of the CLI built on the canonical run's bytes B. distinct_nontrivial counts distinct (world, flag set, input form, -out kind, prior state) tuples.",
 		Assume:   []string{"one trailing newline after the code on stdout is accepted under -print", "for -out into another directory the file is compared with the same run's stdout, since goimports legitimately consults the target directory", "the log's name is checked only as 'same directory, named after the output, .log'"},
 		Extra:    map[string]any{"components_real": componentsReal, "components_simulated": []string{"process environment (GOFILE), cwd, argv, stdout/stderr pipes", "marker entropy in a third of the runs"}, "seam": env.Seam, "accepted_worlds": len(accepted), "simulated_time": "not applicable"},
